@@ -133,6 +133,10 @@ class Guard:
                     return d | {('pos', var, k.split('.')[-1]), ('notnone', var)}
             if isinstance(v, (ast.List, ast.Tuple, ast.Dict, ast.Set, ast.ListComp, ast.JoinedStr)):
                 return d | {('notnone', var), ('neg', var, 'BaseException'), ('container', var)}
+            if not isinstance(v, ast.Name):
+                # computed from something else (element of a result, attribute, user function result):
+                # no longer one of the tracked exception-carrying message values
+                return d | {('derived', var)}
         return d
 
     def _effect_src_facts(self, d_before, d_after, n: Node):
@@ -224,9 +228,10 @@ class Guard:
         for d in S:
             ok = any(f[0] == 'neg' and f[1] == var and lat.is_sub(cls, f[2]) for f in d)
             if not ok:
-                # a positive fact for an unrelated non-exception package class also excludes
+                # a positive fact for an unrelated class also excludes: a non-exception package class
+                # (RemoteException) vs an exception class, in either direction
                 pos = [f[2] for f in d if f[0] == 'pos' and f[1] == var]
-                ok = any(p in lat.other and p != cls and not lat.is_sub(cls, p) for p in pos) and cls not in lat.other
+                ok = (any(p in lat.other and p != cls for p in pos) and cls not in lat.other) or (cls in lat.other and any(p not in lat.other and p != cls for p in pos))
             if not ok:
                 return False
         return True
@@ -240,6 +245,10 @@ class Guard:
     def notnone(self, nid, var) -> bool:
         S = self.at(nid)
         return all(('notnone', var) in d or any(f[0] == 'pos' and f[1] == var for f in d) for d in S)
+
+    def derived(self, nid, var) -> bool:
+        S = self.at(nid)
+        return bool(S) and all(('derived', var) in d for d in S)
 
     def positive(self, nid, var, cls) -> bool:
         S = self.at(nid)
